@@ -226,7 +226,7 @@ int main (int argc, char **argv)
       else if (!strcmp (kind, "sig"))
         { char *v = unhex (a3); m = dbus_message_new_signal ("/a", a1, a2); dbus_message_append_args (m, DBUS_TYPE_STRING, &v, DBUS_TYPE_INVALID); free (v); }
       else if (!strcmp (kind, "call"))
-        { m = dbus_message_new_method_call (a1[0] == '@' ? uniq[atoi (a1 + 1)] : a1, "/a", "com.example.I", a2); }
+        { const char *d_ = a1[0] == (char) 64 ? uniq[atoi (a1 + 1)] : a1; if (getenv ("BUSOOM_DEBUG")) fprintf (stderr, "call dest=[%s] a1=[%s]\n", d_, a1); m = dbus_message_new_method_call (d_, "/a", "com.example.I", a2); }
       else if (!strcmp (kind, "reply"))
         { /* answer the last call of client a1 */
           m = dbus_message_new (DBUS_MESSAGE_TYPE_METHOD_RETURN);
